@@ -52,7 +52,9 @@ struct Counted {
     explicit Counted(int i) : id(i) { live++; }
     Counted(const Counted &o) : id(o.id) { live++; copies++; }
     Counted(Counted &&o) noexcept : id(o.id) { live++; copies++; }
-    ~Counted() { live--; dtors++; }
+    // the id of a destroyed instance is poisoned (volatile: not removed as a dead store), so a read through
+    // a dangling reference is visible in what the reader reports even when the memory is still mapped
+    ~Counted() { live--; dtors++; *const_cast<volatile int *>(&id) = -99; }
 };
 
 struct TestExc : std::exception {
